@@ -69,6 +69,7 @@ type SpecKnobs struct {
 	StrongPenalty        bool   // large base reward / small inactivity quotients so balances move fast
 	EjectionNear         bool   // EJECTION_BALANCE one or two increments below MAX_EFFECTIVE_BALANCE
 	SmallChurn           bool
+	WideDeposits         bool // MAX_DEPOSITS 16
 	ShortLeak            bool
 	SmallSweep           bool
 	SyncAtFork           bool // make a sync committee period boundary coincide with a fork epoch
@@ -238,6 +239,10 @@ func TinySpec(r *hx.Rng, k SpecKnobs) *common.Spec {
 		sp.MIN_VALIDATOR_WITHDRAWABILITY_DELAY = 1
 		sp.MAX_VALIDATORS_PER_WITHDRAWALS_SWEEP = 8
 		sp.MAX_WITHDRAWALS_PER_PAYLOAD = 4
+		if k.WideDeposits {
+			// the registry grows by two dozen validators: keep the sweep cycle short enough to reach the seat member in time
+			sp.MAX_VALIDATORS_PER_WITHDRAWALS_SWEEP = 32
+		}
 	}
 	if k.TwoAttesterSlashings {
 		sp.MAX_ATTESTER_SLASHINGS = 2
@@ -253,6 +258,9 @@ func TinySpec(r *hx.Rng, k SpecKnobs) *common.Spec {
 	}
 	if k.FastEth1 {
 		sp.EPOCHS_PER_ETH1_VOTING_PERIOD = 1
+	}
+	if k.WideDeposits {
+		sp.MAX_DEPOSITS = 16
 	}
 	if k.CommitteeDrop {
 		sp.MAX_COMMITTEES_PER_SLOT = 4
